@@ -230,6 +230,7 @@ fn run<K: Kern<D>, const D: usize>(case: &Case, log: &mut CaseLog) {
             Op::Repair | Op::RepairAdvanced { .. } => "repair",
             Op::CloneSwap => "clone",
             Op::TouchMut => "as_triangulation_mut",
+            Op::SerdeSwap => "serde_roundtrip",
             _ => "setter",
         };
         if !matches!(op, Op::Insert { .. }) && !out.is_failure() && !matches!(out, Outcome::Set) {
@@ -303,7 +304,7 @@ pub fn strategy(dim: usize, max_ops: usize) -> BoxedStrategy<Case> {
         4 => 7,
         _ => 7,
     };
-    (any::<bool>(), any::<u64>(), start_strategy(dim, nmax, 1), proptest::collection::vec(op_strategy(dim, MIX), 1..=max_ops), proptest::collection::vec(any::<u16>(), 1..=2), any::<bool>(), prop_oneof![5 => Just(false), 1 => Just(true)])
+    (any::<bool>(), any::<u64>(), start_strategy(dim, nmax, 1), proptest::collection::vec(prop_oneof![24 => op_strategy(dim, MIX), 1 => Just(Op::SerdeSwap)], 1..=max_ops), proptest::collection::vec(any::<u16>(), 1..=2), any::<bool>(), prop_oneof![5 => Just(false), 1 => Just(true)])
         .prop_map(move |(robust, salt, start, ops, probe_sel, probe_stats, far)| Case { dim, robust, salt, start, ops, probe_sel, probe_stats, far })
         .boxed()
 }
